@@ -2054,23 +2054,25 @@ class mulgrid(object):
                 if end_col is None:
                     if col.contains_point(line[1]):
                         end_col = col
-                if col == start_col == end_col:
-                    track.append((col, line[0], line[1]))
-                    dist.append(0)
-                    break
-                else:
-                    poly = col.polygon
-                    pts = line_polygon_intersections(poly, line)
-                    if len(pts) > 0:
-                        if col == start_col:
-                            pts = [line[0], pts[-1]]
-                        elif col == end_col:
-                            pts = [pts[0], line[-1]]
-                        din, dout = track_dist(pts[0]), track_dist(pts[-1])
-                        col_tol = max(col.side_lengths) * tol
-                        if abs(dout - din) > col_tol:
-                            track.append((col, pts[0], pts[-1]))
-                            dist.append(din)
+                poly = col.polygon
+                pts = line_polygon_intersections(poly, line)
+                if col == start_col: pts = [line[0]] + pts
+                if col == end_col: pts = pts + [line[1]]
+                # parts of the line inside the column (a non-convex
+                # column can be crossed more than once):
+                parts = []
+                for p1, p2 in zip(pts[:-1], pts[1:]):
+                    if in_polygon(0.5 * (p1 + p2), poly):
+                        if parts and parts[-1][1] is p1: parts[-1][1] = p2
+                        else: parts.append([p1, p2])
+                col_tol = max(col.side_lengths) * tol
+                for pin, pout in parts:
+                    din, dout = track_dist(pin), track_dist(pout)
+                    if abs(dout - din) > col_tol:
+                        track.append((col, pin, pout))
+                        dist.append(din)
+                if col == start_col == end_col and len(pts) == 2:
+                    break # whole line inside this column
 
         sortindex = np.argsort(np.array(dist))
         track = [track[i] for i in sortindex]
